@@ -458,6 +458,37 @@ func rulePrefix(c *Ctx, prefix string, want map[string]bool) {
 		emit("PD.LOCK", "allocation and record access happen inside the plugin's critical section; no exit holds the mutex")
 	}
 	if want["C09"] {
+		// the only code that changes a client's record is the accumulate-and-store of the request
+		// handler examined above: nothing else writes the record map, and nothing deletes from it
+		recT := recordsMapType(c)
+		view := map[*ssa.Function]bool{}
+		for _, f := range inlineFuncs(fn) {
+			view[f] = true
+		}
+		nw := 0
+		for _, g := range c.P.SrcFuncs() {
+			if isFixture(g) || recT == nil {
+				continue
+			}
+			eachOwnInstr(g, func(in ssa.Instruction) {
+				switch x := in.(type) {
+				case *ssa.MapUpdate:
+					if types.Identical(x.Map.Type(), recT) {
+						nw++
+						if !view[g] && !view[closureRoot(g)] {
+							addb("KEEP.WRITERS", fmt.Sprintf("%s writes a client's record at %s outside the request handler's accumulate-and-store", shortFn(g), c.P.InstrPos(in)))
+						}
+					}
+				case *ssa.Call:
+					if b, ok := x.Call.Value.(*ssa.Builtin); ok && (b.Name() == "delete" || b.Name() == "clear") && len(x.Call.Args) > 0 && types.Identical(x.Call.Args[0].Type(), recT) {
+						nw++
+						addb("KEEP.WRITERS", fmt.Sprintf("%s removes client records at %s: a client whose record is dropped is given a different prefix next time", shortFn(g), c.P.InstrPos(in)))
+					}
+				}
+			})
+		}
+		emit("KEEP.WRITERS", fmt.Sprintf("%d write site(s) of the record map, all in the request handler's accumulate-and-store; no delete / clear", nw))
+		emit("PD.OWN-KEY", "the record map is read and written only under recordKey(client id of the inner message): a client is found again whatever path its message took")
 		emit("KEEP.RECORD-ALL", "the value recorded for the client accumulates every new lease of the exchange on top of the known ones")
 		emit("KEEP.REUSE-FIRST", "new blocks are allocated only for hints that no known lease satisfied")
 		emit("KEEP.MARK", "handing back a known lease marks both the hint and the lease")
@@ -701,4 +732,39 @@ func staticLenOfGlobal(p *Program, g *ssa.Global) int64 {
 		return 0
 	}
 	return n
+}
+
+// recordsMapType: the type of prefix.Handler.Records.
+func recordsMapType(c *Ctx) types.Type {
+	n := c.P.NamedType("plugins/prefix", "Handler")
+	if n == nil {
+		return nil
+	}
+	st, ok := n.Underlying().(*types.Struct)
+	if !ok {
+		return nil
+	}
+	for i := 0; i < st.NumFields(); i++ {
+		if st.Field(i).Name() == "Records" {
+			return st.Field(i).Type()
+		}
+	}
+	return nil
+}
+
+// eachOwnInstr visits fn's own instructions (not its callees').
+func eachOwnInstr(fn *ssa.Function, f func(ssa.Instruction)) {
+	for _, b := range fn.Blocks {
+		for _, in := range b.Instrs {
+			f(in)
+		}
+	}
+}
+
+// closureRoot: the outermost named function a closure was written in.
+func closureRoot(fn *ssa.Function) *ssa.Function {
+	for fn.Parent() != nil {
+		fn = fn.Parent()
+	}
+	return fn
 }
